@@ -2,12 +2,17 @@
 (***************************************************************************)
 (* Leg C for C17, several exchanges on one real upstream                   *)
 (* (upstream.NewUpstream("udp://127.x.y.z:p")), each with its own question,*)
-(* harness UDP server (always truncated replies) and harness TCP server    *)
+(* harness UDP server (truncated or not, per exchange) and harness TCP server    *)
 (* (answers late, in order per connection) on the same address.            *)
 (* Contract mode: Matching = TRUE (the reply to query y can only be handed *)
 (* to exchange y), ReuseBusy = TRUE (which connection the client uses is   *)
 (* its own business).                                                      *)
-(*   Seq                    new upstream (reset)                           *)
+(*   Seq(tc)                new upstream (reset); tc[x] = is x's own UDP   *)
+(*                          reply truncated                                *)
+(*   UdpDup(y)              UDP server sent a second copy of the reply to  *)
+(*                          the finished exchange y (y's wire id)          *)
+(*   SClose(c) CClosed(c)   TCP server closed its side of idle connection  *)
+(*                          c / saw the client close c (= noticed)         *)
 (*   Start(x)               ExchangeContext(x) called                      *)
 (*   UdpQuery(x, same) UdpReply(x)   UDP server saw x's query / answered   *)
 (*   TcpAccept(c)           TCP server accepted connection c               *)
@@ -30,23 +35,32 @@ TraceInit == l = 1 /\ Init
 
 Reset ==
     /\ IsEvent("Seq")
+    /\ tcx' = [x \in X |-> IF x <= Len(Ev.tc) THEN Ev.tc[x] ELSE TRUE]
     /\ phase' = [x \in X |-> "new"] /\ cancelled' = {} /\ nconn' = 0
-    /\ waiting' = [c \in C |-> 0] /\ idle' = {} /\ dead' = {} /\ srvq' = [c \in C |-> <<>>]
-    /\ result' = [x \in X |-> "none"] /\ resFor' = [x \in X |-> 0] /\ resent' = 0 /\ hist' = <<>>
+    /\ waiting' = [c \in C |-> 0] /\ idle' = {} /\ dead' = {} /\ sclosed' = {} /\ noticed' = {}
+    /\ srvq' = [c \in C |-> <<>>]
+    /\ result' = [x \in X |-> "none"] /\ resFor' = [x \in X |-> 0] /\ resent' = 0 /\ ndup' = 0
+    /\ tries' = [x \in X |-> 0] /\ hitNoticed' = [x \in X |-> FALSE] /\ hist' = <<>>
 
 Logged ==
     \/ IsEvent("Start") /\ Ev.x \in X /\ Start(Ev.x)
     \/ IsEvent("UdpQuery") /\ Ev.x \in X /\ Ev.same /\ phase[Ev.x] # "new" /\ UNCHANGED vars
     \/ IsEvent("UdpReply") /\ Ev.x \in X /\ phase[Ev.x] # "new" /\ (UdpDone(Ev.x) \/ UNCHANGED vars)
+    \/ IsEvent("UdpDup") /\ Ev.y \in X /\ \E x \in X : UdpDup(Ev.y, x)
     \/ IsEvent("TcpAccept") /\ Ev.c = nconn + 1 /\ Accept
     \/ IsEvent("TcpQuery") /\ Ev.x \in X /\ Ev.c \in C /\ Ev.same /\ (Send(Ev.x, Ev.c) \/ Resend(Ev.x, Ev.c))
     \/ IsEvent("Cancel") /\ Ev.x \in X /\ Cancel(Ev.x)
     \/ IsEvent("TcpReply") /\ Ev.c \in C /\ srvq[Ev.c] # <<>> /\ Head(srvq[Ev.c]) = Ev.y /\ Answer(Ev.c)
+    \/ IsEvent("SClose") /\ Ev.c \in C /\ ServerClose(Ev.c)
+    \/ IsEvent("CClosed") /\ Ev.c \in C /\ Notice(Ev.c)
     \/ /\ IsEvent("Result") /\ Ev.x \in X /\ phase[Ev.x] = "done" /\ result[Ev.x] = Ev.kind
-       /\ (Ev.kind = "tcp" => Ev["for"] = Ev.x /\ Ev.idok)
+       /\ (Ev.kind \in {"tcp", "udp"} => Ev["for"] = Ev.x /\ Ev.idok)
        /\ UNCHANGED vars
 
-TraceNext == (Reset \/ Logged) /\ C17SeqInv'
+\* an attempt on a pooled connection the server has closed leaves no event at the servers
+Silent == l <= Len(Trace) /\ UNCHANGED l /\ \E x \in X, c \in C : SendDead(x, c)
+
+TraceNext == (Reset \/ Logged \/ Silent) /\ C17SeqInv'
 TraceSpec == TraceInit /\ [][TraceNext]_tvars
 
 HWM == TLCSet(1, IF TLCGet(1) < l THEN l ELSE TLCGet(1))
